@@ -264,6 +264,10 @@ func sliceItemType(
 			foundType = types[i]
 		} else if foundType.TypeID() != types[i].TypeID() {
 			return nil, fmt.Errorf("mismatching types in list (expected: %s, found: %s)", foundType.TypeID(), types[i].TypeID())
+		} else if err := foundType.ValidateCompatibility(types[i]); err != nil {
+			// Same kind of type, different content (lists of different item types, objects whose fields
+			// differ): the first item's type becomes the list's item type, so every item has to fit it.
+			return nil, fmt.Errorf("mismatching types in list (item %d does not fit the type of the first item: %w)", i, err)
 		}
 	}
 	if foundType == nil {
